@@ -94,7 +94,7 @@ func TestC02(t *testing.T) {
 	}
 	rapid.Check(t, func(t *rapid.T) {
 		lock := rapid.SampledFrom([]string{"nolock", "lock1r", "lockNr"}).Draw(t, "lock")
-		cfg := stack.Config{Shape: "l1l2+batch", Lock: lock, L1: rapid.SampledFrom([]string{"std", "std", "chunked"}).Draw(t, "l1"), L2: "std"}
+		cfg := stack.Config{Shape: "l1l2+batch", Lock: lock, L1: rapid.SampledFrom([]string{"std", "std", "chunked", "batched"}).Draw(t, "l1"), L2: "std"}
 		if lock != "nolock" {
 			cfg.Conc = rapid.SampledFrom([]uint8{0, 3}).Draw(t, "conc")
 			if cfg.L1 == "chunked" {
